@@ -72,6 +72,8 @@ def _build(seed, attempt, metric_hook=None):
             parents = rnd.sample(opts, 1 if rnd.random() < 0.5 else min(2, len(opts)))
             if rnd.random() < 0.3 and len(all_opts) > len(opts):
                 parents.append(rnd.choice([o for o in all_opts if o not in opts]))
+            if rnd.random() < 0.2:
+                parents.append(rnd.choice(permanent))  # also derived without any choice: permanent after all
             g.add_edges([(p, sub) for p in parents])
             elements.append(sub)
     # incompatibility between options of different choices
